@@ -857,10 +857,27 @@ func tfdtTime(t *mp4.TfdtBox) uint64 { return t.BaseMediaDecodeTime() }
 //@ extern func (*github.com/Eyevinn/mp4ff/mp4.TfdtBox).BaseMediaDecodeTime(t) (r)
 //@   ensures r == tfdtTime(t)
 
-//@ func createOutSeg
+//@ func createOutSegT
 //@   trusted
-//@   returns (so, err)
-//@   ensures err == nil ==> so.meta.rep != nil
+
+// Every lookup by number is made with a number that is not below startNumber (otherwise
+// findSegMetaFromNr would index the segment table with a negative remainder).
+//@ func createOutSeg
+//@   wiring
+//@   requires wfCfg(cfg)
+//@   callsite findSegMetaFromNr requires notBeforeStart: int(arg_nr) >= specStartNr(cfg)
+//@ func findSegMeta
+//@   wiring
+//@   requires wfCfg(cfg)
+//@   callsite findSegMetaFromNr requires notBeforeStart: int(arg_nr) >= specStartNr(cfg)
+//@ func findRefSegMeta
+//@   wiring
+//@   requires wfCfg(cfg)
+//@   callsite findSegMetaFromNr requires notBeforeStart: int(arg_nr) >= specStartNr(cfg)
+//@ func (*asset).getRefSegMeta
+//@   wiring
+//@   requires wfCfg(cfg)
+//@   callsite findSegMetaFromNr requires notBeforeStart: int(arg_nr) >= specStartNr(cfg)
 
 // genLiveSegment: every fragment's decode time moves by the same offset (new segment start minus
 // the first fragment's old decode time), and the SCTE-35 announce test is made for exactly this
